@@ -36,6 +36,10 @@ pub struct Drift {
 	pub m: f64,
 }
 impl Drift {
+	pub fn history(&mut self, t: f64, m: f64) {
+		self.t = self.t.max(t);
+		self.m = self.m.max(m);
+	}
 	pub fn new(c: f64, n: usize, init: T) -> Self {
 		Drift {
 			c,
@@ -98,6 +102,9 @@ impl Win {
 
 pub trait RMethod {
 	fn next(&mut self, x: T) -> T;
+	/// tell the model how long and how large the history of the instance it is compared with has been
+	/// (late positions of long runs: the model itself was primed with the last window only)
+	fn set_history(&mut self, _t: f64, _m: f64) {}
 	/// the unit u(n+t)M of the last output, for calibration (0 when not applicable)
 	fn unit(&self) -> f64 {
 		0.0
@@ -121,6 +128,9 @@ impl RSma {
 	}
 }
 impl RMethod for RSma {
+	fn set_history(&mut self, t: f64, m: f64) {
+		self.d.history(t, m);
+	}
 	fn next(&mut self, x: T) -> T {
 		self.w.push(x);
 		self.d.observe(x);
@@ -188,6 +198,9 @@ impl RWeighted {
 	}
 }
 impl RMethod for RWeighted {
+	fn set_history(&mut self, t: f64, m: f64) {
+		self.d.history(t, m);
+	}
 	fn next(&mut self, x: T) -> T {
 		self.w.push(x);
 		self.d.observe(x);
@@ -217,6 +230,10 @@ impl RTrima {
 	}
 }
 impl RMethod for RTrima {
+	fn set_history(&mut self, t: f64, m: f64) {
+		self.a.set_history(t, m);
+		self.b.set_history(t, m);
+	}
 	fn next(&mut self, x: T) -> T {
 		let m = self.a.next(x);
 		self.b.next(m)
@@ -243,6 +260,11 @@ impl RHma {
 	}
 }
 impl RMethod for RHma {
+	fn set_history(&mut self, t: f64, m: f64) {
+		self.w1.set_history(t, m);
+		self.w2.set_history(t, m);
+		self.w3.set_history(t, 3.0 * m);
+	}
 	fn next(&mut self, x: T) -> T {
 		let a = self.w1.next(x);
 		let b = self.w2.next(x);
@@ -295,6 +317,9 @@ impl RRunSum {
 	}
 }
 impl RMethod for RRunSum {
+	fn set_history(&mut self, t: f64, m: f64) {
+		self.d.history(t, m);
+	}
 	fn next(&mut self, x: T) -> T {
 		self.w.push(x);
 		self.d.observe(x);
@@ -306,29 +331,47 @@ impl RMethod for RRunSum {
 	}
 }
 
-/// cumulative sum since construction (windowless Integral / ADI)
+/// cumulative sum since construction (windowless Integral / ADI), Neumaier-compensated, incremental
 #[derive(Clone, Debug)]
 pub struct RCumSum {
-	all: Vec<T>,
+	s: f64,
+	c: f64,
+	e_in: f64,
+	n: f64,
 	max_partial: f64,
 }
 impl RCumSum {
 	pub fn new() -> Self {
 		RCumSum {
-			all: Vec::new(),
+			s: 0.0,
+			c: 0.0,
+			e_in: 0.0,
+			n: 0.0,
 			max_partial: 0.0,
 		}
 	}
 }
 impl RMethod for RCumSum {
 	fn next(&mut self, x: T) -> T {
-		self.all.push(x);
-		let s = sum(self.all.iter().copied());
-		self.max_partial = self.max_partial.max(s.mag()).max(x.mag());
-		s.widen(C_CUMUL * U * self.all.len() as f64 * self.max_partial)
+		if x.und() {
+			self.e_in = f64::INFINITY;
+			return T::UND;
+		}
+		let t = self.s + x.v;
+		if self.s.abs() >= x.v.abs() {
+			self.c += (self.s - t) + x.v;
+		} else {
+			self.c += (x.v - t) + self.s;
+		}
+		self.s = t;
+		self.e_in += x.e;
+		self.n += 1.0;
+		let v = self.s + self.c;
+		self.max_partial = self.max_partial.max(v.abs() + self.e_in).max(x.mag());
+		T::new(v, self.e_in + C_CUMUL * U * self.n * self.max_partial)
 	}
 	fn unit(&self) -> f64 {
-		U * self.all.len() as f64 * self.max_partial
+		U * self.n * self.max_partial
 	}
 }
 
@@ -361,6 +404,9 @@ impl RLinVol {
 	}
 }
 impl RMethod for RLinVol {
+	fn set_history(&mut self, t: f64, m: f64) {
+		self.s.d.history(t, 2.0 * m);
+	}
 	fn next(&mut self, x: T) -> T {
 		let d = x.sub(self.prev).abs();
 		self.prev = x;
@@ -428,6 +474,11 @@ impl RMeanAbsDev {
 	}
 }
 impl RMethod for RMeanAbsDev {
+	fn set_history(&mut self, t: f64, m: f64) {
+		self.d.history(t, m);
+		self.sma_d.history(t, m);
+		self.perturbed = true;
+	}
 	fn next(&mut self, x: T) -> T {
 		self.w.push(x);
 		self.d.observe(x);
@@ -470,6 +521,9 @@ impl RMedianAbsDev {
 	}
 }
 impl RMethod for RMedianAbsDev {
+	fn set_history(&mut self, t: f64, m: f64) {
+		self.d.history(t, m);
+	}
 	fn next(&mut self, x: T) -> T {
 		self.w.push(x);
 		self.d.observe(x);
@@ -498,6 +552,9 @@ impl RCci {
 	}
 }
 impl RMethod for RCci {
+	fn set_history(&mut self, t: f64, m: f64) {
+		self.mad.set_history(t, m);
+	}
 	fn next(&mut self, x: T) -> T {
 		let mad = self.mad.next(x);
 		let mean = self.mad.mean();
@@ -877,6 +934,7 @@ pub enum RefOut {
 
 pub trait RefM {
 	fn next(&mut self, x: &In) -> RefOut;
+	fn set_history(&mut self, _t: f64, _m: f64) {}
 	fn unit(&self) -> f64 {
 		0.0
 	}
@@ -889,6 +947,9 @@ struct Arith<R: RMethod>(R);
 impl<R: RMethod> RefM for Arith<R> {
 	fn next(&mut self, x: &In) -> RefOut {
 		RefOut::Arith(self.0.next(T::exact(x.val())))
+	}
+	fn set_history(&mut self, t: f64, m: f64) {
+		self.0.set_history(t, m);
 	}
 	fn unit(&self) -> f64 {
 		self.0.unit()
@@ -915,10 +976,37 @@ impl RefM for VidyaRef {
 	}
 }
 
+struct VwmaRef(RVwma);
+impl RefM for VwmaRef {
+	fn next(&mut self, x: &In) -> RefOut {
+		let p = x.pair();
+		RefOut::Arith(self.0.next((T::exact(p.0), T::exact(p.1))))
+	}
+	fn set_history(&mut self, t: f64, m: f64) {
+		// m: magnitude of the history of both components (value * volume and volume)
+		self.0.dn.history(t, m);
+		self.0.dd.history(t, m);
+	}
+}
+
+struct AdiRef(RRunSum);
+impl RefM for AdiRef {
+	fn next(&mut self, x: &In) -> RefOut {
+		let c = tc_exact(&x.candle_f64());
+		RefOut::Arith(self.0.next(clv(&c).mul(c[4])))
+	}
+	fn set_history(&mut self, t: f64, m: f64) {
+		self.0.set_history(t, m);
+	}
+}
+
 struct StDevRef(RStDev);
 impl RefM for StDevRef {
 	fn next(&mut self, x: &In) -> RefOut {
 		RefOut::Var(self.0.next_var(T::exact(x.val())))
+	}
+	fn set_history(&mut self, t: f64, m: f64) {
+		self.0.d.history(t, m);
 	}
 	fn unit(&self) -> f64 {
 		self.0.var_unit()
@@ -954,11 +1042,7 @@ pub fn make_ref(name: &str, p: &Params, first: &In) -> Option<Box<dyn RefM>> {
 		}
 		"VWMA" => {
 			let pr = first.pair();
-			let mut r = RVwma::new(n, (T::exact(pr.0), T::exact(pr.1)));
-			Box::new(FnRef(move |x: &In| {
-				let p = x.pair();
-				RefOut::Arith(r.next((T::exact(p.0), T::exact(p.1))))
-			}))
+			Box::new(VwmaRef(RVwma::new(n, (T::exact(pr.0), T::exact(pr.1)))))
 		}
 		"Integral" => {
 			if n == 0 {
@@ -1010,11 +1094,7 @@ pub fn make_ref(name: &str, p: &Params, first: &In) -> Option<Box<dyn RefM>> {
 					RefOut::Arith(s.next(clv(&c).mul(c[4])))
 				}))
 			} else {
-				let mut s = RRunSum::new(n, clvv0, C_INTEGRAL);
-				Box::new(FnRef(move |x: &In| {
-					let c = tc_exact(&x.candle_f64());
-					RefOut::Arith(s.next(clv(&c).mul(c[4])))
-				}))
+				Box::new(AdiRef(RRunSum::new(n, clvv0, C_INTEGRAL)))
 			}
 		}
 		"EMA" => Box::new(Arith(REma::ema(n, v0))),
